@@ -5,6 +5,7 @@ use jrsonnet_evaluator::{
 	error::{ErrorKind::*, Result},
 	function::{builtin, CallLocation, FuncVal},
 	manifest::JsonFormat,
+	stack::check_depth,
 	typed::{Either2, Either4},
 	val::{equals, ArrValue},
 	Either, IStr, ObjValue, ObjValueBuilder, ResultExt, Thunk, Val,
@@ -172,6 +173,7 @@ pub fn builtin_merge_patch(target: Val, patch: Val) -> Result<Val> {
 	let Some(patch) = patch.as_obj() else {
 		return Ok(patch);
 	};
+	let _guard = check_depth()?;
 	let target = target.as_obj().unwrap_or_else(ObjValue::empty);
 	let target_fields = target
 		.fields(
